@@ -139,7 +139,7 @@ pub fn audit(prop: &str) -> serde_json::Value {
           {"class": 7, "topic": "history shapes", "covered": "single images; the crafted embedded-footer segment", "open": "multi-object histories are C11 / C12 / C13"},
           {"class": 8, "topic": "node-global state", "covered": "none", "open": ""},
           {"class": 9, "topic": "observations", "covered": "canonical text of EVERY field of every decoded value (payload bytes in hex), error classes, header / footer fields through the readers' accessors, CheckpointResult fields; on-disk constants of the crate / the source against the model's writers (FMT)", "open": "gossip byte flips are measured, not judged (no checksum on the wire)"},
-          {"class": 10, "topic": "finding signatures", "covered": "one open finding, identified by cause: C14:checkpoint:load-without-validate:panics-on-short-image fires only when the image ends before 52 + announced data length (any other panic of that path is C14:checkpoint:load-without-validate:panic:other = VIOLATION); decoded-different / truncate:decoded stay violations", "open": ""},
+          {"class": 10, "topic": "finding signatures", "covered": "no open finding: C14:checkpoint:load-without-validate:panics-on-short-image was repaired (fix: 7df179c), its corpus case must pass and any panic of that path is a VIOLATION again; decoded-different / truncate:decoded stay violations", "open": ""},
           {"class": 11, "topic": "harness fragility", "covered": "which load() variant the code has is probed on every run (and the oracle is unconditional); source-scan failures are violations; no model op for the 1 MiB value (oracle only)", "open": ""}
         ]),
     }
